@@ -413,7 +413,7 @@ theorem removeObjects_noAttach (I : ObjIface σ) (s : State σ) (l : List Nat) :
     simp only [removeObjects]
     exact NoAttach.append (removeObject_noAttach _ _ _) (ih _)
 
-theorem cleanup_noAttach (I : ObjIface σ) (s s' : State σ) (now : Int) (stale : Nat → Bool)
+theorem cleanup_noAttach (I : ObjIface σ) (s s' : State σ) (now : Int) (stale : Stale)
     (evs : List Ev) (h : cleanup I s now stale = .ok (s', evs)) : NoAttach evs := by
   unfold cleanup at h
   simp only [] at h
